@@ -197,12 +197,20 @@ class P:
                     if body[1] is not None:
                         body = (body[0] + [("expr", body[1])], None)
                     stmts.append(("for_iter", var, lo, body[0]))
+            elif self.at("return"):
+                self.eat("return")
+                e = self.expr()
+                if self.at(";"):
+                    self.eat(";")
+                stmts.append(("return", e))
             elif self.at("if"):
                 e = self.if_expr()
-                if self.at("}"):
+                if e[0] == "if_stmt":
+                    stmts.append(e)
+                elif self.at("}"):
                     tail = e
                 else:
-                    raise GenError("an if statement that is not the tail of its block is outside the fragment")
+                    raise GenError("an if/else statement that is not the tail of its block is outside the fragment")
             else:
                 e = self.expr()
                 if self.at("="):
@@ -224,6 +232,11 @@ class P:
         self.eat("if")
         c = self.expr()
         a = self.block()
+        if not self.at("else"):
+            # `if c { ...; return e; }` : the block must leave the function
+            if a[1] is not None or not a[0] or a[0][-1][0] != "return":
+                raise GenError("an if without else whose block does not end in `return` is outside the fragment")
+            return ("if_stmt", c, a)
         self.eat("else")
         b = self.block()
         return ("if", c, a, b)
@@ -454,11 +467,26 @@ class Gen:
                 seen.append(x)
         return seen
 
+    def ret_value(self, e, env):
+        m = self.cur
+        b, c, t = self.expr(e, env, m["ret"])
+        if t != m["ret"]:
+            raise GenError("fn %s returns %s, `return` has %s" % (m["name"], m["ret"], t))
+        return self.emit_binds(b, "Val (self, %s)" % c if m["selfmode"] == "mut" else "Val %s" % c)
+
     def stmts(self, ss, env, k):
         """k : function env -> text of the continuation"""
         if not ss:
             return k(env)
         s, rest = ss[0], ss[1:]
+        if s[0] == "return":
+            return self.ret_value(s[1], env)
+        if s[0] == "if_stmt":
+            b, c, t = self.expr(s[1], env)
+            if t != "bool":
+                raise GenError("if on a non-boolean")
+            inside = self.stmts(s[2][0], env, lambda e2: "Trap")
+            return self.emit_binds(b, "if %s\nthen (%s)\nelse (%s)" % (c, inside, self.stmts(rest, env, k)))
         if s[0] == "let":
             b, c, t = self.expr(s[3], env, s[2])
             if s[2] and s[2] != t:
@@ -562,6 +590,7 @@ class Gen:
 
     def method(self, m):
         env = {x: t for x, t in m["params"]}
+        self.cur = m
         rt = {"u64": "N", "usize": "N", "u32": "N", "bool": "bool", "unit": "unit", "vec": "list N"}[m["ret"]]
         params = " ".join("(%s : %s)" % (x, {"bool": "bool", "vec": "list N"}.get(t, "N")) for x, t in m["params"])
         res = "(%s * %s)" % (self.struct, rt) if m["selfmode"] == "mut" else rt
